@@ -5,7 +5,15 @@
    markers is kept by Redact().  Retention through the whole engine and report is
    decided on every run by the correspondence stream and the token search on
    the implementation (proof listed as missing in the evidence). *)
-From Errv Require Import Base.Str Redact.Markers Redact.Buffer Proofs.RedactFacts.
+From Errv Require Import Base.Str Redact.Markers Redact.Buffer Proofs.RedactFacts Proofs.RedactWf.
+
+(* a call made only of literals and safe arguments (any bytes) prints no marker at
+   all: nothing of it can be removed by Redact() *)
+Theorem C12_safe_pieces_no_markers : forall ps,
+  Forall (fun p => match p with PLit _ | PSafe _ => True | _ => False end) ps ->
+  has_markers (sprint_pieces ps) = false.
+Proof. exact safe_pieces_no_markers. Qed.
+Print Assumptions C12_safe_pieces_no_markers.
 
 Theorem C12_safe_arg_retained_partial : forall s,
   ascii s = true -> redact (sprint_pieces [PSafe s]) = s.
